@@ -21,6 +21,7 @@ from vf.gen import dims as gd
 from vf.gen import trees as gt
 from vf.models import dimlang as dl
 from vf.models import pytree as pt
+from vf.models import dtypes as dt
 from vf.checks import c01
 
 ID = "C08"
@@ -412,12 +413,50 @@ def c08_case(draw):
     return case
 
 
+def check_lookalike_leaf_types(ctx, case):
+    """Two leaf types that are spelled alike but mean different things -- a nested annotation that narrows the dtypes, `Shaped[Float[A,
+    s1], s2]`, and the flat `Shaped[A, 's2 s1']` -- each wrapped in PyTree[...] in the same process, in either order: every PyTree[L]
+    judges leaves by ITS leaf type."""
+    from jaxtyping import Float, Int
+
+    obs.reset_state()
+    s1, s2 = case["s1"], case["s2"]
+    inner_cat = {"Float": Float, "Int": Int}[case["inner"]]
+    shape = tuple(case["shape"])
+    builders = {"narrow": lambda: Shaped[inner_cat[np.ndarray, s1], s2], "flat": lambda: Shaped[np.ndarray, (s2 + " " + s1).strip()]}
+    order = ["narrow", "flat"] if case["narrow_first"] else ["flat", "narrow"]
+    anns = {k: PyTree[builders[k]()] for k in order}  # (created in this order)
+    for dtype in ("float32", "int32"):
+        tree = [np.zeros(shape, dtype=dtype), {"k": np.zeros(shape, dtype=dtype)}]
+        for k in order:
+            want = "True" if (k == "flat" or dt.accepts(case["inner"], dtype)) else "False"
+            got = obs.verdict(tree, anns[k])
+            if got != want:
+                raise Violation("lookalike-leaf-types", dict(case, lookalike=True),
+                                f"PyTree[{'Shaped[' + case['inner'] + '[ndarray,' + repr(s1) + '],' + repr(s2) + ']' if k == 'narrow' else 'Shaped[ndarray,' + repr((s2 + ' ' + s1).strip()) + ']'}] "
+                                f"(created {'first' if order[0] == k else 'second'}) on a tree of two {dtype} arrays of shape {shape}: {got}, expected {want}")
+    ctx.note(["lookalike", s1, s2, case["inner"], case["narrow_first"]], True, classes=["lookalike-leaf-types"], sample={"lookalike_leaf_types": case})
+
+
 def run(ctx):
     @given(c08_case())
     def cases(case):
         check_case(ctx, case)
 
     ctx.hyp(cases, max_examples=ctx.n(500, 3000))
+
+    names = st.sampled_from(["a", "b", "c", "rows", "k8"])
+
+    @given(st.fixed_dictionaries({"s1": names, "s2": st.one_of(names, st.just("")), "inner": st.sampled_from(["Float", "Int"]), "narrow_first": st.booleans(),
+                                  "shape": st.lists(st.sampled_from([2, 3]), min_size=2, max_size=2)}))
+    def lookalikes(case):
+        if case["s2"] == "":
+            case = dict(case, shape=case["shape"][:1])
+        elif case["s1"] == case["s2"]:
+            case = dict(case, shape=[case["shape"][0]] * 2)
+        check_lookalike_leaf_types(ctx, case)
+
+    ctx.hyp(lookalikes, max_examples=ctx.n(40, 200))
     if ctx.shard == 0:
         try:
             check_bare_pytree(ctx)
@@ -429,6 +468,9 @@ def replay(case, clause, ctx):
     try:
         if "bare_value" in case:
             check_bare_pytree(ctx)
+            return None
+        if case.get("lookalike"):
+            check_lookalike_leaf_types(ctx, case)
             return None
         check_case(ctx, case)
     except Violation as v:
